@@ -8,6 +8,9 @@ namespace hx {
 #define HX_GROUP(name) void run_##name(const Req&, Resp&);
 #include "groups.def"
 #undef HX_GROUP
+#define HX_BUNDLE(id, name) void run_##id(const Req&, Resp&);
+#include "bundles.def"
+#undef HX_BUNDLE
 }
 
 int main() {
@@ -16,6 +19,9 @@ int main() {
 #define HX_GROUP(name) table[#name] = hx::run_##name;
 #include "groups.def"
 #undef HX_GROUP
+#define HX_BUNDLE(id, name) table[name] = hx::run_##id;
+#include "bundles.def"
+#undef HX_BUNDLE
 #ifdef NDEBUG
   const bool built_dbg = false;
 #else
